@@ -984,6 +984,10 @@ func (s *server) MutateRow(ctx context.Context, req *btpb.MutateRowRequest) (*bt
 		return nil, status.Errorf(codes.NotFound, "table %q not found", req.TableName)
 	}
 
+	if len(req.RowKey) == 0 {
+		return nil, status.Errorf(codes.InvalidArgument, "row key must not be empty")
+	}
+
 	defer tbl.write()
 	tbl.mu.Lock()
 	defer tbl.mu.Unlock()
@@ -1015,7 +1019,10 @@ func (s *server) MutateRows(req *btpb.MutateRowsRequest, stream btpb.Bigtable_Mu
 		r := tbl.getOrCreateRow(entry.RowKey)
 
 		code, msg := int32(codes.OK), ""
-		if err := applyMutations(tbl, r, entry.Mutations, now); err != nil {
+		if len(entry.RowKey) == 0 {
+			code = int32(codes.InvalidArgument)
+			msg = "row key must not be empty"
+		} else if err := applyMutations(tbl, r, entry.Mutations, now); err != nil {
 			code = int32(codes.Internal)
 			msg = err.Error()
 		} else {
@@ -1037,6 +1044,9 @@ func (s *server) CheckAndMutateRow(ctx context.Context, req *btpb.CheckAndMutate
 		return nil, status.Errorf(codes.NotFound, "table %q not found", req.TableName)
 	}
 	res := &btpb.CheckAndMutateRowResponse{}
+	if len(req.RowKey) == 0 {
+		return nil, status.Errorf(codes.InvalidArgument, "row key must not be empty")
+	}
 
 	defer tbl.write()
 	tbl.mu.Lock()
@@ -1228,6 +1238,10 @@ func (s *server) ReadModifyWriteRow(ctx context.Context, req *btpb.ReadModifyWri
 	s.mu.Unlock()
 	if !ok {
 		return nil, status.Errorf(codes.NotFound, "table %q not found", req.TableName)
+	}
+
+	if len(req.RowKey) == 0 {
+		return nil, status.Errorf(codes.InvalidArgument, "row key must not be empty")
 	}
 
 	defer tbl.write()
